@@ -247,3 +247,73 @@ func VerifC20Cache() {
 	}
 	vrt.Reach("end")
 }
+
+func init() { VerifHarnesses["VerifC20Intf"] = VerifC20Intf }
+
+// VerifC20Intf: the epoch is cached for one validator; then two requests for overlapping index sets overlap in time (the
+// second runs, whole, at a lock boundary of the first: vrt.Interfere); afterwards every answer of the cache must still be
+// the beacon node's answer - in particular no duty twice.
+func VerifC20Intf() {
+	typ := vrt.Param("typ")
+	b := &vBeacon{}
+	for v := 0; v < vVals; v++ {
+		b.present[0][0][v][0] = vrt.Bool(vrt.N("present", v))
+		b.tag[0][0][v][0] = vrt.Byte(vrt.N("tag", v))
+	}
+	c := NewDutiesCache(b, []eth2p0.ValidatorIndex{0, 1, 2})
+	drawIdx := func(name string, n int) []eth2p0.ValidatorIndex {
+		idx := make([]eth2p0.ValidatorIndex, n)
+		for q := 0; q < n; q++ {
+			x := vrt.Byte(vrt.N(name, q))
+			vrt.Assume(x < vVals)
+			for p := 0; p < q; p++ {
+				vrt.Assume(idx[p] != eth2p0.ValidatorIndex(x))
+			}
+			idx[q] = eth2p0.ValidatorIndex(x)
+		}
+		return idx
+	}
+	check := func(label string, res vRes, idx []eth2p0.ValidatorIndex) {
+		expected := 0
+		for v := 0; v < vVals; v++ {
+			wanted := false
+			for _, i := range idx {
+				if int(i) == v {
+					wanted = true
+				}
+			}
+			if wanted && b.present[0][0][v][0] {
+				expected++
+				found := false
+				for x := 0; x < len(res.val); x++ {
+					if res.val[x] == uint64(v) && res.tag[x] == b.tag[0][0][v][0] {
+						found = true
+					}
+				}
+				vrt.Assert(label+": every duty the beacon node assigns to a requested validator is returned", found)
+			}
+		}
+		vrt.Assert(label+": no duty is returned twice and none for a validator that was not requested", len(res.val) == expected)
+	}
+	pre := drawIdx("pre", vrt.Param("npre"))
+	if len(pre) > 0 {
+		r0, err := vAsk(c, typ, vE0, pre)
+		vrt.Assert("request succeeds", err == nil)
+		check("first request", r0, pre)
+	}
+	ia, ib := drawIdx("ia", vrt.Param("na")), drawIdx("ib", vrt.Param("nb"))
+	var rb vRes
+	var errB error
+	vrt.Interfere(func() { rb, errB = vAsk(c, typ, vE0, ib) })
+	ra, errA := vAsk(c, typ, vE0, ia)
+	vrt.Assume(vrt.InterfererRan())
+	vrt.Assert("overlapping requests succeed", errA == nil && errB == nil)
+	check("overlapping request A", ra, ia)
+	check("overlapping request B", rb, ib)
+	// what the cache serves afterwards
+	ic := drawIdx("ic", vrt.Param("nc"))
+	rc, errC := vAsk(c, typ, vE0, ic)
+	vrt.Assert("later request succeeds", errC == nil)
+	check("request after the overlap", rc, ic)
+	vrt.Reach("end")
+}
